@@ -122,6 +122,29 @@ theorem C14_get_is_last_response (C : Cfg V Mask U) (init : V) (rs : List (Req M
       | pull n m uo => exact Or.inr rfl
       | cancel i => exact Or.inr rfl
 
+/-- **C14_stream_messages_accounted.** History form of "one coherent register" for streams: after ANY
+request history, every message on every stream either was already on that stream (same name, same
+mask) before the history, or carries the stream's own request name and is the stream's projection of
+a value the register actually held during the history (`vals`: the value before, and the value after
+each request — by `C14_get_is_last_response` the initial value or an Update response). Nothing else
+ever appears on a stream. -/
+theorem C14_stream_messages_accounted (C : Cfg V Mask U) (rs : List (Req Mask U)) :
+    ∀ (s : Srv V Mask) (st' : Stream V Mask), st' ∈ (run C s rs).streams → ∀ x, x ∈ st'.out →
+      (∃ st, st ∈ s.streams ∧ st.name = st'.name ∧ st.mask = st'.mask ∧ x ∈ st.out) ∨
+      (x.2 = st'.name ∧ ∃ v, v ∈ vals C s rs ∧ x.1 = view C st'.mask v) := by
+  induction rs with
+  | nil => intro s st' hst x hx; exact Or.inl ⟨st', hst, rfl, rfl, hx⟩
+  | cons r rs ih =>
+    intro s st' hst x hx
+    rcases ih (step C s r).1 st' hst x hx with ⟨st1, h1, hn, hm, hx1⟩ | ⟨hn, v, hv, hxv⟩
+    · rcases step_streams C s r st1 h1 x hx1 with ⟨st, h0, hn0, hm0, hx0⟩ | ⟨hn1, hval⟩
+      · exact Or.inl ⟨st, h0, hn0.trans hn, hm0.trans hm, hx0⟩
+      · refine Or.inr ⟨hn1.trans hn, ?_⟩
+        rcases hval with hval | hval
+        · exact ⟨(step C s r).1.cur, by simp [vals, cur_mem_vals], by rw [hval, hm]⟩
+        · exact ⟨s.cur, by simp [vals], by rw [hval, hm]⟩
+    · exact Or.inr ⟨hn, v, by simp [vals, hv], hxv⟩
+
 /-! ### Non-vacuity -/
 
 /-- a concrete server: values are numbers, `apply` adds and rejects 0, masks take remainders, equality as equivalence -/
@@ -261,5 +284,28 @@ theorem C14_composite_update_on_streams_partial (C : Cfg V Mask U) (s : Srv V Ma
 
 /-- the hypothesis of the partial theorem is satisfiable by a reachable state -/
 example : (stepMulti exCfg ⟨10, []⟩ "x" [5]).2 = .val 15 := by decide
+
+/-! ### A recorded finding: an edited seed — enterleavesensorpb.PullEnterLeaveEvents
+
+The model clears occupant and direction in the seed it sends (documented). -/
+
+/-- a Pull whose seed is `edit cur` instead of `cur` -/
+def openStreamEdited (C : Cfg V Mask U) (edit : V → V) (cur : V) (name : String) (mask : Option Mask) (uo : Bool) : Stream V Mask :=
+  { openStream C cur name mask uo with out := if uo then [] else [(view C mask (edit cur), name)] }
+
+/-- the full-strength `C14_pull_seed` fails for such a server -/
+theorem C14_pull_seed_edited_fails :
+    ∃ (edit : Nat → Nat) (cur : Nat), (openStreamEdited exCfg edit cur "a" none false).out ≠ [(view exCfg none cur, "a")] :=
+  ⟨fun _ => 0, 7, by decide⟩
+
+/-- **partial:** when the edit leaves the current value alone (enter/leave: the last event carries
+neither occupant nor direction — e.g. initially or after ResetEnterLeaveTotals) the Pull is the
+register's Pull and `C14_pull_seed` applies. -/
+theorem C14_pull_seed_edited_partial (C : Cfg V Mask U) (edit : V → V) (cur : V) (name : String) (mask : Option Mask) (uo : Bool)
+    (h : edit cur = cur) : openStreamEdited C edit cur name mask uo = openStream C cur name mask uo := by
+  simp [openStreamEdited, openStream, h]
+
+/-- the hypothesis is satisfiable: an edit that clears a component leaves values without it alone -/
+example : (fun n : Nat => n % 10) 7 = 7 := by decide
 
 end ScVerif.C14
